@@ -1,6 +1,7 @@
 SPECIFICATION Spec
 CONSTANTS
   MergeTiming = "eager"
+  DoFeedback = "rerun"
   TmpName = "fresh"
   Programs <- ProgramsFull
 INVARIANTS T01 DeltaInv Sound T17
